@@ -331,7 +331,7 @@ def part_symfiles(ctx, h):
     d = os.path.join(ctx.scratch, "symfiles")
     os.makedirs(d, exist_ok=True)
     cases = []       # (tag, tab_or_None, path, bid, saved_bytes_or_None, file_bytes, loaded_tab)
-    for i in range(ctx.n(40, 500)):
+    for i in range(ctx.n(30, 500)):
         tab = gen_file_tab(rng)
         if i % 4 == 3:      # tables outside the round-trip guard are still saved/loaded faithfully
             tab = gen_table(rng, rng.choice(["wf", "dup", "ends"]))
@@ -486,7 +486,7 @@ def part_maps(ctx, h, objdir):
     d = os.path.join(ctx.scratch, "maps")
     os.makedirs(d, exist_ok=True)
     cases = []
-    for i in range(ctx.n(60, 600)):
+    for i in range(ctx.n(40, 600)):
         txt = gen_map_text(rng)
         open(os.path.join(d, "sid-%016x.map" % i), "wb").write(txt)
         kb, ms = parse_maps(h.run(["READMAP %s %016x %s" % (d, i, hx("/usr/bin/prog"))]))
@@ -541,7 +541,7 @@ def part_maps_writer(ctx, h, objdir, d):
     build.cc([src] + build.libmcount_objs(objdir, ""), exe, objdir,
              extra=build.LINK_LIBS + ["-Wl,--wrap=fopen"])
     out = []
-    for i in range(ctx.n(20, 300)):
+    for i in range(ctx.n(14, 300)):
         segs = []
         a = rng.choice([0x400000, 0x555555554000])
         mods = ["/usr/bin/prog", "/lib/libc.so.6", "/lib/libfoo.so", "/opt/a/libfoo.so", "/lib/ld.so"]
@@ -798,7 +798,7 @@ def run_story(h, d, symdir, probes):
     res = []
     for l in out[1:-1]:
         _, nm, a, s, sid, mp = l.split()
-        res.append(None if nm == "-" else (int(a), int(s), unhx(nm)))
+        res.append((None if nm == "-" else (int(a), int(s), unhx(nm)), None if mp == "-" else unhx(mp)))
     return res
 
 
@@ -807,6 +807,12 @@ def cans(r):
 
 
 D_EVALS = [
+    # module shown for the address: model (find_task_session + find_map) and ground truth
+    ("mmod", "bad_indices (fun cm => match cm with ((dd, gs, tl, prs), (gm, ms)) => let lk := open_data dem_plain dd in "
+             "forallb (fun pm => match pm with ((tid, t, a, ans), m) => match resolve_map lk tid t a, m with Some x, Some y => str_eqb x y "
+             "| None, None => true | _, _ => false end end) (combine prs ms) end) (combine dc dm) 0"),
+    ("vmod", "bad_indices (fun cm => match cm with ((dd, gs, tl, prs), (gm, ms)) => "
+             "forallb (fun pm => match pm with ((tid, t, a, ans), m) => ok_module gm tl tid t a m end) (combine prs ms) end) (combine dc dm) 0"),
     ("mismatch", "bad_indices (fun c => match c with (dd, gs, tl, prs) => let lk := open_data dem_plain dd in "
                  "forallb (fun pr => match pr with (tid, t, a, ans) => ans_eqb (resolve lk tid t a) ans end) prs end) dc 0"),
     ("violations", "bad_indices (fun c => match c with (dd, gs, tl, prs) => "
@@ -824,7 +830,7 @@ D_DEFS = """Definition ans_eqb (m : option sym) (a : option (Z * Z * str)) : boo
 def part_datadirs(ctx, h):
     rng = ctx.rng
     cases = []
-    for i in range(ctx.n(24, 300)):
+    for i in range(ctx.n(18, 300)):
         withsyms = (i % 5 == 4)
         st = gen_story(rng, big=(i % 3 == 0), withsyms=withsyms)
         d = os.path.join(ctx.scratch, "dd%d" % (i % 4))
@@ -832,8 +838,9 @@ def part_datadirs(ctx, h):
         symdir = os.path.join(d, "syms") if withsyms else d
         maps = story_files(st, d, symdir)
         probes = story_probes(rng, st)
-        ans = run_story(h, d, symdir, probes)
-        cases.append((st, maps, probes, ans, withsyms))
+        ansm = run_story(h, d, symdir, probes)
+        ans = [x[0] for x in ansm]
+        cases.append((st, maps, probes, ans, withsyms, [x[1] for x in ansm]))
         nsess = len(st.sessions)
         tags = ["D:sessions=%d" % min(nsess, 4), "D:tasks=%d" % min(len(st.timeline), 5)]
         if any(s["dl"] for s in st.sessions):
@@ -860,22 +867,27 @@ def part_datadirs(ctx, h):
 
 def eval_datadirs(ctx, cases):
     defs = D_DEFS + "Definition dc : list (datadir * list gt_session * list (Z * list (Z * nat)) * list (Z * Z * Z * option (Z * Z * str))) := [\n"
-    items = []
-    for st, maps, probes, ans, withsyms in cases:
+    items, mitems = [], []
+    for st, maps, probes, ans, withsyms, mods in cases:
         gs, tl = cgt(st)
         items.append("(%s, %s, %s, [%s])" % (cdatadir(st, maps, withsyms), gs, tl,
                                                "; ".join("(%d, %d, %d, %s)" % (p[0], p[1], p[2], cans(a)) for p, a in zip(probes, ans))))
+        gm = "[%s]" % "; ".join("[%s]" % "; ".join("(%d, %d, %s)" % (a, b, cstr(m)) for a, b, m in s_["maps"]) for s_ in st.sessions)
+        mitems.append("(%s, [%s])" % (gm, "; ".join(copt(m, cstr) for m in mods)))
     defs += ";\n".join(items) + "\n].\n"
+    defs += "Definition dm : list (list (list (Z * Z * str)) * list (option str)) := [\n%s\n].\n" % ";\n".join(mitems)
     res = coq.run_cases(ctx, "cases_d", PRE, defs, D_EVALS, timeout=1500)
     if res is None:
         return
     r = {k: coq.parse_nat_list(v) for k, v in res.items()}
-    for i in r["violations"][:2]:
-        st, maps, probes, ans, withsyms = cases[i]
-        ctx.violation("an address is resolved to the wrong symbol / session (task_find_sym_addr against the ground truth)",
-                      story_replay(st, probes, ans, withsyms), True)
-    if r["mismatch"] and not r["violations"]:
-        st, maps, probes, ans, withsyms = cases[r["mismatch"][0]]
+    for i in sorted(set(r["violations"] + r["vmod"]))[:2]:
+        st, maps, probes, ans, withsyms, mods = cases[i]
+        ctx.violation("an address is resolved to the wrong symbol / session (task_find_sym_addr against the ground truth)"
+                      if i in r["violations"] else "an address is attributed to the wrong module (find_task_session + find_map against the ground truth)",
+                      dict(story_replay(st, probes, ans, withsyms), impl_modules=[None if m is None else m.decode("latin1") for m in mods]), True)
+    r["mismatch"] = sorted(set(r["mismatch"] + r["mmod"]))
+    if r["mismatch"] and not r["violations"] and not r["vmod"]:
+        st, maps, probes, ans, withsyms, mods = cases[r["mismatch"][0]]
         ctx.violation("model and utils/session.c+symbol.c disagree on address resolution (%d directories)" % len(r["mismatch"]),
                       story_replay(st, probes, ans, withsyms), False)
 
@@ -893,10 +905,11 @@ def replay_datadir(ctx, h, obj):
     symdir = os.path.join(d, "syms") if withsyms else d
     maps = story_files(st, d, symdir)
     probes = [tuple(p) for p in obj["probes"]]
-    ans = run_story(h, d, symdir, probes)
+    ansm = run_story(h, d, symdir, probes)
+    ans = [x[0] for x in ansm]
     ctx.case(key="replay", sample={"impl": [None if a is None else a[2].decode("latin1") for a in ans][:8]})
     ctx.log("replayed data directory: %d probes, %d resolved" % (len(probes), sum(1 for a in ans if a)))
-    eval_datadirs(ctx, [(st, maps, probes, ans, withsyms)])
+    eval_datadirs(ctx, [(st, maps, probes, ans, withsyms, [x[1] for x in ansm])])
 
 
 def story_replay(st, probes, ans, withsyms):
@@ -981,10 +994,75 @@ def part_e2e(ctx, objdir):
             ctx.violation("replay --with-syms DIR differs from replay with the recorded symbol files",
                           {"part": "E", "with_syms": funcs_of_replay(out2), "plain": names}, True)
         ctx.case(key=("E", "with-syms", k), tags=["E:with-syms"])
+        # record --with-syms DIR: the symbol files are taken from DIR (plain copy) and replay shows the same
+        d3 = os.path.join(root, "recsyms%d" % k)
+        rc, out3, err3 = sh(["timeout", "40", uft, "record", "--no-pager", "--no-event", "--libmcount-path=" + objdir,
+                             "--with-syms", sd, "-d", d3, "./prog", os.path.join(root, "libc10plug.so")], timeout=60, cwd=root)
+        if rc == 124 or not os.path.exists(os.path.join(d3, "task.txt")):
+            ctx.broken("e2e: uftrace record --with-syms failed (rc=%d): %s" % (rc, (out3 + err3)[-300:]))
+        else:
+            differ = [f for f in os.listdir(sd) if f.endswith(".sym") and
+                      (not os.path.exists(os.path.join(d3, f)) or open(os.path.join(d3, f), "rb").read() != open(os.path.join(sd, f), "rb").read())]
+            rc, out4, err4 = datadir.uftrace(objdir, "replay", d3, ["-f", "none"])
+            names4 = [n for n in funcs_of_replay(out4) if n in EXPECT]
+            if differ or names4 != EXPECT:
+                ctx.violation("record --with-syms DIR: symbol files are not the ones of DIR, or replay does not show the functions by name",
+                              {"part": "E", "differing_sym_files": differ, "replay_functions": funcs_of_replay(out4), "expected": EXPECT}, True)
+            ctx.case(key=("E", "record-with-syms", k), tags=["E:record-with-syms"])
         # reload every .sym file record wrote: identical after another save (writer/reader fixpoint)
     if len(set(b[0] for _, b in runs if b)) > 1:
         ctx.tag("E:aslr-bases-differ")
 
+
+
+
+def part_rawdisplay(ctx, objdir):
+    """synthetic directory, real `uftrace replay`: an address inside a symbol is printed under its name, every other
+    address as <hex of that address> (first byte, last byte, one past, gaps, unmapped)"""
+    rng = ctx.rng
+    for k in range(ctx.n(2, 12)):
+        tab = [(a % 0x80000, sz, t, "f%d_%s" % (i, n.replace(" ", "_").replace(":", "_"))) for i, (a, sz, t, n) in
+               enumerate(gen_file_tab(rng, rng.choice([3, 5, 8]))) if t != "P" and sz < 0x8000]
+        if not tab:
+            continue
+        base = rng.choice([0x400000, 0x555555554000])
+        probes = [p for p in probes_of(rng, tab, 2) if p < 0x100000][:24] + [0x7000000 - base]
+        recs, t = [], 1000
+        for pr in probes:
+            recs += [{"t": t, "type": datadir.ENTRY, "depth": 0, "addr": base + pr}, {"t": t + 5, "type": datadir.EXIT, "depth": 0, "addr": base + pr}]
+            t += 10
+        d = os.path.join(ctx.scratch, "rawdisp%d" % k)
+        datadir.write({"syms": [(a, sz, ty, n) for a, sz, ty, n in tab], "base": base,
+                       "tasks": [{"tid": 100, "pid": 100, "recs": recs}]}, d)
+        rc, out, err = datadir.uftrace(objdir, "replay", d, ["-f", "none", "--demangle=no"])
+        shown = funcs_of_replay(out)
+        if rc != 0 or len(shown) != len(probes):
+            ctx.broken("rawdisplay: replay failed or shows %d of %d calls (rc=%d): %s" % (len(shown), len(probes), rc, (out + err)[-300:]))
+            continue
+        ans = []
+        for pr, nm in zip(probes, shown):
+            if nm == "<%x>" % (base + pr):
+                ans.append(None)
+            else:
+                ans.append(nm)          # a name - or a raw address that is not the record's address (judged as a wrong name)
+        defs = "Definition wt : symtab := %s.\nDefinition wp : list (Z * option str) := [%s].\n" % (
+            ctab(tab), "; ".join("(%d, %s)" % (pr, copt(a, cstr)) for pr, a in zip(probes, ans)))
+        res = coq.run_cases(ctx, "cases_w%d" % k, PRE, defs, [
+            ("v", "bad_indices (fun pr => match spec_find wt (fst pr), snd pr with Some s, Some nm => str_eqb (s_name s) nm "
+                  "| None, None => true | _, _ => false end) wp 0"),
+            ("m", "bad_indices (fun pr => match find_sym wt (fst pr), snd pr with Some s, Some nm => str_eqb (s_name s) nm "
+                  "| None, None => true | _, _ => false end) wp 0")])
+        ctx.case(key=("W", tuple(tab), tuple(probes), base), tags=["E:raw-address-display", "E:synthetic-replay"], size=len(probes))
+        if res is None:
+            continue
+        v, m = coq.parse_nat_list(res["v"]), coq.parse_nat_list(res["m"])
+        if v:
+            ctx.violation("replay of a synthetic directory: an address inside a symbol is not shown under its name, or an address outside "
+                          "every symbol is not shown as its raw address", {"part": "E", "table": tab, "base": base,
+                          "wrong": [["%x" % (base + probes[i]), shown[i]] for i in v[:6]]}, True)
+        elif m:
+            ctx.violation("model find_sym and `uftrace replay` disagree on a synthetic directory", {"part": "E", "table": tab, "base": base,
+                          "first": ["%x" % (base + probes[m[0]]), shown[m[0]]]}, False)
 
 
 # ---------------------------------------------------------------- R: real recordings with static initialisers
@@ -992,7 +1070,8 @@ def part_e2e(ctx, objdir):
 # traced functions; the constructor dlopen()s a second library.  Ground truth: the load bases the
 # program itself logs (dladdr) and `nm -S` of the ELF files.  EVERY record of the run is judged.
 R_DEP_C = "int c10dep_fn(int x) { return x + 100; }\n"
-R_LIB_C = "int c10lib_fn(int x) { return x * 3; }\n"
+R_LIB_C = ("#include <stdlib.h>\n#include <string.h>\n"
+           "int c10lib_fn(int x) { return x * 3 + atoi(\"5\") + (int)strlen(\"abc\"); }\n")   # PLT calls inside a shared library
 R_B_CC = r"""
 #include <stdio.h>
 #include <dlfcn.h>
@@ -1058,6 +1137,44 @@ def nm_funcs(path):
     return sorted((a, v[0][0], v[0][1]) for a, v in by.items() if len(v) == 1 and v[0][0] > 0)
 
 
+def objdump_plt(path):
+    """[(addr, 16, name)] of the name@plt labels binutils derives for .plt / .plt.sec"""
+    import re
+    rc, out, err = sh(["objdump", "-d", "-j", ".plt", "-j", ".plt.sec", "--no-show-raw-insn", path])
+    has_sec = "Disassembly of section .plt.sec" in out
+    res, sec = [], None
+    for l in out.splitlines():
+        if l.startswith("Disassembly of section"):
+            sec = l.split()[-1].rstrip(":")
+        m = re.match(r"^([0-9a-f]+) <([^@>+]+)@plt>:", l)
+        if m and (sec == ".plt.sec" or not has_sec):
+            res.append((int(m.group(1), 16), 16, m.group(2)))
+    return res
+
+
+def parse_dump(out):
+    """`uftrace dump` -> [(tid, time, addr, name)] of the entry records"""
+    import re
+    res = []
+    for l in out.splitlines():
+        m = re.match(r"^\s*(\d+\.\d+)\s+(\d+): \[entry\] (.*)\(([0-9a-f]+)\) depth: \d+", l)
+        if m:
+            res.append((int(m.group(2)), ts_ns(m.group(1)), int(m.group(4), 16), m.group(3)))
+    return res
+
+
+def parse_report(out):
+    names, on = [], False
+    for l in out.splitlines():
+        if l.strip().startswith("====="):
+            on = True
+            continue
+        k = l.split()
+        if on and len(k) >= 6:
+            names.append(" ".join(k[5:]))
+    return names
+
+
 def ts_ns(txt):
     sec, ns = txt.split(".")
     return int(sec) * 10**9 + int(ns)
@@ -1113,7 +1230,7 @@ R_EVALS = [
 ]
 
 
-def r_scenario(ctx, objdir, root, tag, na, nb, nested, dep, relpath, lazy):
+def r_scenario(ctx, objdir, root, tag, na, nb, nested, dep, relpath, lazy, nest=False):
     """build, record, observe; returns a dict or None (ctx.broken called)"""
     uft = os.path.join(objdir, "uftrace")
     w = os.path.join(root, tag)
@@ -1131,7 +1248,7 @@ def r_scenario(ctx, objdir, root, tag, na, nb, nested, dep, relpath, lazy):
     for fn, txt in src.items():
         open(os.path.join(w, fn), "w").write(txt)
     sh(["gcc", "-pg", "-O0", "-fPIC", "-shared", "-o", "libc10dep.so", "dep.c"], cwd=w, check=True)
-    sh(["gcc", "-pg", "-O0", "-fPIC", "-shared", "-o", "libc10lib.so", "lib.c"], cwd=w, check=True)
+    sh(["gcc", "-pg", "-O0", "-fno-builtin", "-fPIC", "-shared", "-o", "libc10lib.so", "lib.c"], cwd=w, check=True)
     sh(["g++", "-pg", "-O0", "-fPIC", "-shared", "-o", "libc10b.so", "b.cc", "-ldl"], cwd=w, check=True)
     sh(["gcc", "-pg", "-O0", "-fPIC", "-shared", "-o", "libc10a.so", "a.c", "-ldl"]
        + (["-L.", "-lc10dep", "-Wl,-rpath," + w] if dep else []), cwd=w, check=True)
@@ -1139,8 +1256,8 @@ def r_scenario(ctx, objdir, root, tag, na, nb, nested, dep, relpath, lazy):
     d = os.path.join(w, "data")
     env = {"C10_LIBB": os.path.join(w, "libc10b.so")} if nested else {"C10_LIBB": ""}
     liba = "./libc10a.so" if relpath else os.path.join(w, "libc10a.so")
-    rc, out, err = sh(["timeout", "40", uft, "record", "--no-pager", "--no-event", "--libmcount-path=" + objdir,
-                       "-d", d, "./prog", liba], timeout=60, cwd=w, env=env)
+    rc, out, err = sh(["timeout", "40", uft, "record", "--no-pager", "--no-event", "--libmcount-path=" + objdir]
+                      + (["--nest-libcall"] if nest else []) + ["-d", d, "./prog", liba], timeout=60, cwd=w, env=env)
     if rc == 124 or not os.path.exists(os.path.join(d, "task.txt")):
         ctx.broken("e2e(%s): uftrace record failed (rc=%d): %s" % (tag, rc, (out + err)[-300:]))
         return None
@@ -1154,10 +1271,15 @@ def r_scenario(ctx, objdir, root, tag, na, nb, nested, dep, relpath, lazy):
     if rc != 0 or not recs:
         ctx.broken("e2e(%s): uftrace replay failed (rc=%d): %s" % (tag, rc, (rout + rerr)[-300:]))
         return None
-    elfs = {n: nm_funcs(os.path.join(w, n)) for n in ("prog", "libc10lib.so", "libc10a.so", "libc10b.so", "libc10dep.so")
-            if n in bases}
-    return {"tag": tag, "dir": d, "w": w, "bases": bases, "recs": recs, "elfs": elfs, "events": parse_task_txt(os.path.join(d, "task.txt")),
-            "replay": rout, "params": {"na": na, "nb": nb, "nested": nested, "dep": dep, "relpath": relpath, "lazy": lazy}}
+    elfs = {n: nm_funcs(os.path.join(w, n)) + objdump_plt(os.path.join(w, n))
+            for n in ("prog", "libc10lib.so", "libc10a.so", "libc10b.so", "libc10dep.so") if n in bases}
+    rc2, dout, derr = datadir.uftrace(objdir, "dump", d, ["--demangle=no"])
+    rc3, pout, perr = datadir.uftrace(objdir, "report", d, ["--demangle=no"])
+    if rc2 != 0 or rc3 != 0:
+        ctx.broken("e2e(%s): uftrace dump/report failed (rc=%d/%d): %s" % (tag, rc2, rc3, (derr + perr)[-300:]))
+        return None
+    return {"tag": tag, "dump": parse_dump(dout), "report": parse_report(pout), "dir": d, "w": w, "bases": bases, "recs": recs, "elfs": elfs, "events": parse_task_txt(os.path.join(d, "task.txt")),
+            "replay": rout, "params": {"na": na, "nb": nb, "nested": nested, "dep": dep, "relpath": relpath, "lazy": lazy, "nest_libcall": nest}}
 
 
 def r_evaluate(ctx, sc, skip_mods=()):
@@ -1180,6 +1302,10 @@ def r_evaluate(ctx, sc, skip_mods=()):
         probes.append((tid, t, addr, None if israw else name))
         if inmod:
             modrows.append((mod, inmod[0][0]))
+    for tid, t, addr, name in sc.get("dump", []):          # the same records as `uftrace dump` shows them
+        probes.append((tid, t, addr, None if name.startswith("<") else name))
+        if name.startswith("<") and not any(m[1] <= addr < m[2] for m in mods if m[0] in skip_mods):
+            raw.append((tid, addr, t, "dump", name))
     events = sc["events"]
     d = sc["dir"]
     maps = {}
@@ -1243,18 +1369,21 @@ def part_recordings(ctx, objdir):
     rng = ctx.rng
     root = os.path.join(ctx.scratch, "rec")
     os.makedirs(root, exist_ok=True)
-    variants = [("full", 2, 3, True, False, False, False)]
+    # "full": nested dlopen from a constructor AND a DT_NEEDED dependency that comes in with the opened library
+    # (regression case of fix 0c4417a: before it the dependency got no DLOP entry)
+    variants = [("full", 2, 3, True, True, False, False, True)]
     for k in range(ctx.n(1, 5)):
-        variants.append(("v%d" % k, rng.randrange(1, 4), rng.randrange(1, 4), rng.random() < 0.6, False,
-                         rng.random() < 0.5, rng.random() < 0.5))
-    for tag, na, nb, nested, dep, relpath, lazy in variants:
-        sc = r_scenario(ctx, objdir, root, tag, na, nb, nested, dep, relpath, lazy)
+        variants.append(("v%d" % k, rng.randrange(1, 4), rng.randrange(1, 4), rng.random() < 0.6, rng.random() < 0.5,
+                         rng.random() < 0.5, rng.random() < 0.5, rng.random() < 0.5))
+    for tag, na, nb, nested, dep, relpath, lazy, nest in variants:
+        sc = r_scenario(ctx, objdir, root, tag, na, nb, nested, dep, relpath, lazy, nest)
         if sc is None:
             continue
         r = r_evaluate(ctx, sc)
-        tags = ["R:ctor", "R:c++-global-init" if nested else "R:no-nested", "R:nested-dlopen" if nested else "R:single-dlopen",
-                "R:relative-path" if relpath else "R:absolute-path", "R:lazy" if lazy else "R:now"]
-        ctx.case(key=("R", tag, na, nb, nested, relpath, lazy), tags=tags, size=len(sc["recs"]),
+        tags = ["R:ctor", "R:dependency" if dep else "R:no-dependency", "R:c++-global-init" if nested else "R:no-nested", "R:nested-dlopen" if nested else "R:single-dlopen",
+                "R:relative-path" if relpath else "R:absolute-path", "R:lazy" if lazy else "R:now",
+                "R:nest-libcall(library PLT)" if nest else "R:exe-PLT-only", "R:dump", "R:report"]
+        ctx.case(key=("R", tag, na, nb, nested, dep, relpath, lazy), tags=tags, size=len(sc["recs"]),
                  sample={"part": "R", "params": sc["params"], "records": len(sc["recs"]),
                          "functions": [x[4] for x in sc["recs"]][:14]} if tag == "full" else None)
         if r is None:
@@ -1263,8 +1392,19 @@ def part_recordings(ctx, objdir):
         want = {"c10a_init", "c10a_fill", "c10a_run", "c10_exe_fn", "c10_local", "c10lib_fn", "main"}
         if nested:
             want |= {"c10b_helper", "c10b_run", "_GLOBAL__sub_I_b.cc"}
+        if dep:
+            want |= {"c10dep_fn"}
+        if nest:
+            want |= {"atoi", "strlen"}            # called through the PLT of libc10lib.so
         addrs_seen = set(in_which(sc, x[1]).split(" of ")[0] for x in sc["recs"])
         missing = sorted(want - addrs_seen)
+        rep_names, play_names = set(sc["report"]), set(x[4] for x in sc["recs"])
+        if rep_names != play_names:
+            ctx.violation("`uftrace report` and `uftrace replay` name the functions of one recording differently",
+                          {"part": "R", "params": sc["params"], "only_in_report": sorted(rep_names - play_names),
+                           "only_in_replay": sorted(play_names - rep_names)}, True)
+        if len(sc["dump"]) != len(sc["recs"]):
+            ctx.broken("e2e(%s): dump shows %d entry records, replay %d" % (tag, len(sc["dump"]), len(sc["recs"])))
         if missing:
             ctx.broken("e2e(%s): the recording does not contain records of %s (scenario did not run as designed)" % (tag, missing),
                        sc["replay"][-1500:])
@@ -1285,27 +1425,161 @@ def part_recordings(ctx, objdir):
         elif r["mismatch"]:
             ctx.violation("model of the analysis side and `uftrace replay` disagree on a real recording (%d records)" % len(r["mismatch"]),
                           r_replay_obj(sc, r, {"first": list(r["probes"][r["mismatch"][0]])}), False)
-    # dedicated witness of a listed defect: a DT_NEEDED dependency that comes in with the dlopen()ed library
-    sc = r_scenario(ctx, objdir, root, "dep", 2, 1, False, True, False, False)
-    if sc is not None:
-        r = r_evaluate(ctx, sc, skip_mods=("libc10dep.so",))
-        ctx.case(key=("R", "dep"), tags=["R:dlopen-with-dependency"], size=len(sc["recs"]))
-        if r is not None:
-            b = sc["bases"].get("libc10dep.so")
-            ext = max(a + s_ for a, s_, _ in sc["elfs"]["libc10dep.so"]) if sc["elfs"].get("libc10dep.so") else 0
-            dep_recs = [x for x in sc["recs"] if b is not None and b <= x[1] < b + ext]
-            dep_raw = [x for x in dep_recs if x[4].startswith("<")]
-            ctx.known_finding("dlopen-dependency",
-                              "records inside a DT_NEEDED dependency loaded by dlopen() are shown as raw addresses",
-                              still_fails=bool(dep_raw),
-                              replay=r_replay_obj(sc, r, {"dependency_records": [["%x" % x[1], x[3], x[4]] for x in dep_recs][:6]}))
-            if not dep_recs:
-                ctx.broken("e2e(dep): no record inside libc10dep.so - witness did not run as designed", sc["replay"][-1500:])
-            other = r["raw"] or r["vname"] or r["vmod"] or r["vorder"]
-            if other:
-                ctx.violation("real recording (dlopen with a dependency): records outside the dependency are resolved wrongly",
-                              r_replay_obj(sc, r), True)
 
+
+
+# ---------------------------------------------------------------- X: real recordings across fork and exec
+# Two NON-PIE executables whose functions overlap in address: the parent (progA) forks, the child runs
+# progA code, then execs progB.  A record of the child is progA's before the exec and progB's after it:
+# "the session in force at the record's timestamp".  Ground truth: nm/objdump of both files, the
+# program's own log of the child pids, and the child's execl() record (PLT address known from objdump).
+X_A_C = r"""
+#include <stdio.h>
+#include <stdlib.h>
+#include <unistd.h>
+#include <sys/wait.h>
+volatile int sink;
+int c10x_a_work(int x) { sink += x; return x + 1; }
+int c10x_a_child(int x) { sink += x; return x + 2; }
+int c10x_a_after(int x) { sink += x; return x + 3; }
+int main(int argc, char **argv)
+{
+	int st = 0, i; pid_t pid;
+	c10x_a_work(argc);
+	for (i = 0; i < %(nchild)d; i++) {
+		pid = fork();
+		if (pid == 0) {
+			c10x_a_child(i);
+			if (%(execmask)d & (1 << i))
+				execl(argv[1], argv[1], (char *)0);
+			c10x_a_after(i);
+			_exit(0);
+		}
+		fprintf(stderr, "C10CHILD %%d %%d\n", (int)pid, (%(execmask)d >> i) & 1);
+		waitpid(pid, &st, 0);
+		c10x_a_after(st);
+	}
+	return 0;
+}
+"""
+X_B_C = r"""
+volatile int sink;
+int c10x_b_one(int x) { sink += x; return x * 2; }
+int c10x_b_two(int x) { sink += x; return c10x_b_one(x) + 1; }
+int c10x_b_three(int x) { sink += x; return c10x_b_two(x) + 1; }
+int main(int argc, char **argv) { return c10x_b_three(argc) == 12345; }
+"""
+
+X_EVALS = [
+    ("vname", "bad_indices (fun pr => match pr with (tid, t, a, ans) => ok_resolve_name xgs xtl tid t a ans end) xprobes 0"),
+    ("vmod", "bad_indices (fun pr => match pr with (shown, want) => str_eqb shown want end) xmods 0"),
+    ("mismatch", "let lk := open_data dem_plain xdir in bad_indices (fun pr => match pr with (tid, t, a, ans) => "
+                 "match resolve lk tid t a, ans with Some s, Some nm => str_eqb (s_name s) nm | None, None => true | _, _ => false end end) xprobes 0"),
+]
+
+
+def part_forkexec(ctx, objdir):
+    rng = ctx.rng
+    uft = os.path.join(objdir, "uftrace")
+    root = os.path.join(ctx.scratch, "forkexec")
+    os.makedirs(root, exist_ok=True)
+    variants = [("x0", 1, 1)] + [("x%d" % (k + 1), rng.randrange(1, 4), rng.randrange(0, 8)) for k in range(ctx.n(1, 4))]
+    for tag, nchild, execmask in variants:
+        execmask &= (1 << nchild) - 1
+        w = os.path.join(root, tag)
+        os.makedirs(w)
+        open(os.path.join(w, "a.c"), "w").write(X_A_C % {"nchild": nchild, "execmask": execmask})
+        open(os.path.join(w, "b.c"), "w").write(X_B_C)
+        sh(["gcc", "-pg", "-O0", "-fno-pie", "-no-pie", "-o", "progA", "a.c"], cwd=w, check=True)
+        sh(["gcc", "-pg", "-O0", "-fno-pie", "-no-pie", "-o", "progB", "b.c"], cwd=w, check=True)
+        d = os.path.join(w, "data")
+        rc, out, err = sh(["timeout", "40", uft, "record", "--no-pager", "--no-event", "--libmcount-path=" + objdir, "-d", d,
+                           "./progA", os.path.join(w, "progB")], timeout=60, cwd=w)
+        if rc == 124 or not os.path.exists(os.path.join(d, "task.txt")):
+            ctx.broken("forkexec(%s): uftrace record failed (rc=%d): %s" % (tag, rc, (out + err)[-300:]))
+            continue
+        children = [(int(l.split()[1]), int(l.split()[2])) for l in (out + err).splitlines() if l.startswith("C10CHILD ")]
+        rc, rout, rerr = datadir.uftrace(objdir, "replay", d, ["-f", "tid,addr,time,module", "--demangle=no"])
+        recs = parse_replay_fields(rout)
+        rc2, dout, derr = datadir.uftrace(objdir, "dump", d, ["--demangle=no"])
+        tabs = {n: [(a, sz, nm) for a, sz, nm in nm_funcs(os.path.join(w, n)) + objdump_plt(os.path.join(w, n))] for n in ("progA", "progB")}
+        execl_addr = [a for a, sz, nm in tabs["progA"] if nm == "execl"]
+        events = parse_task_txt(os.path.join(d, "task.txt"))
+        parent = [e[1] for e in events if e[0] == "SESS"][0]
+        timeline = {parent: [(0, 0)]}
+        for pid, does_exec in children:
+            tl = [(0, 0)]
+            if does_exec:
+                tx = [t for tid, addr, t, mod, nm in recs if tid == pid and execl_addr and addr == execl_addr[0]]
+                if not tx:
+                    ctx.broken("forkexec(%s): child %d has no execl() record" % (tag, pid), rout[-1500:])
+                    continue
+                tl.append((tx[0] + 1, 1))
+            timeline[pid] = tl
+
+        def in_force(tid, t):
+            cur = None
+            for st_, si in timeline.get(tid, []):
+                if st_ <= t:
+                    cur = si
+            return cur
+        names = ["progA", "progB"]
+        probes, modrows, raw = [], [], []
+        for tid, addr, t, mod, nm in recs:
+            israw = nm.startswith("<") and nm.endswith(">")
+            probes.append((tid, t, addr, None if israw else nm))
+            si = in_force(tid, t)
+            if si is not None and any(a <= addr < a + sz for a, sz, _ in tabs[names[si]]):
+                modrows.append((mod, names[si]))
+            if israw and addr != 0:
+                raw.append(["%x" % addr, tid])
+        for tid, t, addr, nm in parse_dump(dout):
+            probes.append((tid, t, addr, None if nm.startswith("<") else nm))
+        maps, files = {}, {}
+        for e in events:
+            if e[0] == "SESS":
+                maps[e[3]] = open(os.path.join(d, "sid-%s.map" % e[3]), "rb").read()
+        for n in names:
+            fn = os.path.join(d, n + ".sym")
+            if os.path.exists(fn):
+                files[n + ".sym"] = open(fn, "rb").read()
+        defs = "Definition xgs : list gt_session := [%s].\n" % "; ".join(
+            "mkGt [(0, %d, %s)] []" % (max(a + sz for a, sz, _ in tabs[n]), ctab([(a, sz, "T", nm) for a, sz, nm in tabs[n]])) for n in names)
+        defs += "Definition xtl : list (Z * list (Z * nat)) := [%s].\n" % "; ".join(
+            "(%d, [%s])" % (tid, "; ".join("(%d, %d%%nat)" % x for x in tl)) for tid, tl in sorted(timeline.items()))
+        defs += "Definition xprobes : list (Z * Z * Z * option str) := [%s].\n" % "; ".join(
+            "(%d, %d, %d, %s)" % (p[0], p[1], p[2], copt(p[3], cstr)) for p in probes)
+        defs += "Definition xmods : list (str * str) := [%s].\n" % "; ".join("(%s, %s)" % (cstr(a), cstr(b)) for a, b in modrows)
+        defs += "Definition xdir : datadir := mkDir [%s] [%s] [%s] false.\n" % (
+            "; ".join(cevent(e) for e in events),
+            "; ".join("(%s, %s)" % (cstr(k), cstr(v)) for k, v in maps.items()),
+            "; ".join("(%s, %s)" % (cstr(k), cstr(v)) for k, v in files.items()))
+        res = coq.run_cases(ctx, "cases_x_" + tag, PRE, defs, X_EVALS, timeout=600)
+        nexec = sum(1 for _, e in children if e)
+        ctx.case(key=("X", tag, nchild, execmask), tags=["X:fork", "X:children=%d" % nchild, "X:exec=%d" % nexec,
+                                                          "X:overlapping-addresses"], size=len(recs),
+                 sample={"part": "X", "children": children, "functions": [(r[0], r[4]) for r in recs][:16]} if tag == "x0" else None)
+        if res is None:
+            continue
+        r = {k: coq.parse_nat_list(v) for k, v in res.items()}
+        seen = set((tid == parent, nm) for tid, addr, t, mod, nm in recs)
+        need = {(True, "c10x_a_work"), (True, "c10x_a_after"), (False, "c10x_a_child")} | ({(False, "c10x_b_one")} if nexec else set())
+        rep = {"part": "X", "children": children, "source_a": X_A_C % {"nchild": nchild, "execmask": execmask}, "replay": rout[-3000:],
+               "task_txt": open(os.path.join(d, "task.txt")).read(), "timeline": {str(k): v for k, v in timeline.items()}}
+        if r["vname"] or r["vmod"] or raw or not need <= seen:
+            what = []
+            if r["vname"]:
+                what.append("%d records under a wrong name: %s" % (len(r["vname"]), [list(probes[i]) for i in r["vname"][:3]]))
+            if r["vmod"]:
+                what.append("%d records under a wrong module" % len(r["vmod"]))
+            if raw:
+                what.append("raw addresses %s" % raw[:4])
+            if not need <= seen:
+                what.append("functions missing from replay: %s" % sorted(need - seen))
+            ctx.violation("real recording across fork/exec (two non-PIE programs with overlapping addresses): " + "; ".join(what), rep, True)
+        elif r["mismatch"]:
+            ctx.violation("model of the analysis side and `uftrace replay` disagree on a fork/exec recording (%d records)" % len(r["mismatch"]),
+                          dict(rep, first=list(probes[r["mismatch"][0]])), False)
 
 
 # ---------------------------------------------------------------- P: PLT entries of real ELF files
@@ -1471,6 +1745,10 @@ def part_plt(ctx, h, objdir):
             ctx.violation("model and utils/symbol.c load_elf_dynsymtab disagree (%d files)" % len(set(r["madj"] + r["mrun"])),
                           p_replay_obj(c), False)
     plt_noplt_case(ctx, h, objdir, w)
+    extra = os.path.join(w, "libc10t.so")
+    open(os.path.join(w, "t.cc"), "w").write(R_B_CC % {"nb": 2})
+    sh(["g++", "-pg", "-O0", "-fPIC", "-shared", "-o", extra, "t.cc", "-ldl"], cwd=w, check=True)
+    part_elftables(ctx, h, objdir, [os.path.join(w, c[0]) for c in cases[:ctx.n(4, 30)]] + [extra, os.path.join(w, "noplt"), os.path.join(w, "noplt_pie")])
     # recordings: every call through a PLT slot is shown under the slot's name
     for name, exe, f, funcs, pie in recs_todo:
         d = os.path.join(w, "data-" + name)
@@ -1506,7 +1784,14 @@ def part_plt(ctx, h, objdir):
         symtab_rec, _ = parse_tab(h.run(["LOADSYM %s" % os.path.join(d, name + ".sym")]))
         plt_bad = [("%x" % a, n.decode()) for a, sz, t, n in symtab_rec
                    if t == "P" and n.decode() in dict(f["truth"]) and a != dict(f["truth"])[n.decode()] - f["vaddr0"]]
-        ctx.case(key=("P", "record", name), tags=["P:record+replay", "P:rec-pie" if pie else "P:rec-non-pie"], size=len(recs))
+        tmod_ = [c[5] for c in cases if c[0] == name][0]
+        if symtab_rec != tmod_:
+            diff = [x for x in symtab_rec if x not in tmod_][:5] + [x for x in tmod_ if x not in symtab_rec][:5]
+            ctx.violation("the symbol file written by record does not reload to the table the loader builds from the ELF file",
+                          {"part": "P", "exe": name, "pie": pie, "differing_entries": [["%x" % a, sz, t, n.decode("latin1")] for a, sz, t, n in diff]},
+                          True)
+        ctx.case(key=("P", "record", name), tags=["P:record+replay", "P:rec-pie" if pie else "P:rec-non-pie", "P:recorded-sym=elf-table"],
+                 size=len(recs))
         if wrong or plt_bad:
             ctx.violation("calls through PLT entries are not shown under the function's name (recording of %s executable%s)"
                           % ("a PIE" if pie else "a non-PIE", "; PLT entries in the written .sym file are not module-relative" if plt_bad else ""),
@@ -1596,6 +1881,93 @@ def plt_noplt_case(ctx, h, objdir, w):
                  "recorded_sym_P": [["%x" % a, n.decode()] for a, sz, t, n in trec if t == "P"], "replay": rout[-1500:]}, True)
 
 
+
+def elf_syms(path):
+    """(.symtab entries, .dynsym entries) in file order: (value, size, type, bind, shndx, name)"""
+    _, out, _ = sh(["readelf", "-sW", path], check=True)
+    T = {"NOTYPE": 0, "OBJECT": 1, "FUNC": 2, "SECTION": 3, "FILE": 4, "COMMON": 5, "TLS": 6, "IFUNC": 10}
+    B = {"LOCAL": 0, "GLOBAL": 1, "WEAK": 2, "UNIQUE": 10}
+    tabs, cur = {}, None
+    for l in out.splitlines():
+        if l.startswith("Symbol table '"):
+            cur = l.split("'")[1]
+            tabs[cur] = []
+            continue
+        k = l.split()
+        if cur and len(k) >= 7 and k[0].endswith(":") and k[0][:-1].isdigit():
+            size = int(k[2], 16) if k[2].startswith("0x") else int(k[2])
+            ndx = 0 if k[6] == "UND" else (0xfff1 if k[6] == "ABS" else (0xfff2 if k[6] == "COM" else int(k[6])))
+            name = k[7].split("@")[0] if len(k) > 7 else ""
+            tabs[cur].append((int(k[1], 16), size, T.get(k[3], 99), B.get(k[4], 99), ndx, name))
+    return tabs.get(".symtab", []), tabs.get(".dynsym", [])
+
+
+def elf_file_facts(path):
+    import re
+    f = p_elf_facts(path)
+    st, dyn = elf_syms(path)
+    _, out, _ = sh(["readelf", "-SW", path], check=True)
+    m = re.search(r"\]\s+\.rela\.dyn\s+\S+\s+([0-9a-f]{16})", out)
+    reladyn = int(m.group(1), 16) if m else 0
+    _, out, _ = sh(["readelf", "-rW", path], check=True)
+    dynidx = {}
+    gd, on, idx = [], False, 0
+    for l in out.splitlines():
+        if l.startswith("Relocation section"):
+            on = "'.rela.dyn'" in l
+            idx = 0
+            continue
+        k = l.split()
+        if on and len(k) >= 3 and len(k[0]) == 16 and k[0] != "Offset":
+            if "GLOB_DAT" in k[2]:
+                si = int(k[1], 16) >> 32
+                if si and si < len(dyn) and dyn[si][2] in (2, 10) and dyn[si][4] == 0:
+                    gd.append((idx, dyn[si][5]))
+            idx += 1
+    f.update({"symtab": st, "dynsym": dyn, "reladyn": reladyn, "globdat": gd})
+    return f
+
+
+def cesyms(l):
+    return "[" + "; ".join("mkESym %d %d %d %d %d %s" % (v, sz, t, b, x, cstr(n)) for v, sz, t, b, x, n in l) + "]"
+
+
+def celffile(f):
+    return "mkElf %d %s %s (%s) %d [%s]" % (f["vaddr0"], cesyms(f["symtab"]), cesyms(f["dynsym"]), celfplt(f), f["reladyn"],
+                                           "; ".join("(%d, %s)" % (i, cstr(n)) for i, n in f["globdat"]))
+
+
+def part_elftables(ctx, h, objdir, files):
+    """the whole module table (ELF .symtab + PLT + GOT pseudo symbols, merged, renamed by .dynsym): model vs
+    load_module_symtab, and the checker on the implementation's table"""
+    cases = []
+    for path in files:
+        f = elf_file_facts(path)
+        tmod, _ = parse_tab(h.run(["ELFMOD %s" % path]))
+        cases.append((path, f, tmod))
+        alias = len(set(v for v, sz, t, b, x, n in f["symtab"] if x and sz and t in (1, 2, 10))) < \
+            len([1 for v, sz, t, b, x, n in f["symtab"] if x and sz and t in (1, 2, 10)])
+        ctx.case(key=("T", os.path.basename(path), len(f["symtab"]), f["vaddr0"]), nontrivial=True, size=len(f["symtab"]),
+                 tags=["T:elf-module-table", "T:aliases" if alias else "T:no-aliases", "T:pie/so" if f["vaddr0"] == 0 else "T:non-pie",
+                       "T:got-pseudo-syms" if f["globdat"] else "T:no-got-syms"])
+    defs = "Definition tc : list (elffile * symtab) := [\n%s\n].\n" % ";\n".join("(%s, %s)" % (celffile(f), ctab(t)) for _, f, t in cases)
+    res = coq.run_cases(ctx, "cases_t", PRE, defs, [
+        ("m", "bad_indices (fun c => tab_eqb (module_table (fst c)) (snd c)) tc 0"),
+        ("v", "bad_indices (fun c => ok_module_table (fst c) (snd c)) tc 0")], timeout=600)
+    if res is None:
+        return
+    m, v = coq.parse_nat_list(res["m"]), coq.parse_nat_list(res["v"])
+    for i in v[:2]:
+        path, f, tmod = cases[i]
+        ctx.violation("the module table built from an ELF file misses a function/object symbol at (st_value - module base) or holds an "
+                      "address twice", {"part": "T", "file": os.path.basename(path), "vaddr0": "%x" % f["vaddr0"],
+                                        "table": [["%x" % a, sz, t, n.decode("latin1")] for a, sz, t, n in tmod][:60]}, True)
+    if m and not v:
+        path, f, tmod = cases[m[0]]
+        ctx.violation("model module_table and load_module_symtab disagree (%d files)" % len(m),
+                      {"part": "T", "file": os.path.basename(path), "impl_table": [["%x" % a, sz, t, n.decode("latin1")] for a, sz, t, n in tmod][:80]}, False)
+
+
 def p_replay_obj(c):
     name, f, base, tadj, trun, tmod, tre, taken, pie, ibt = c
     j = lambda t: [["%x" % a, sz, ty, n.decode("latin1")] for a, sz, ty, n in t if ty == "P"]
@@ -1643,8 +2015,9 @@ def run(ctx):
     objdir, h = setup(ctx)
     for name, f in (("K kernels", lambda: part_kernels(ctx, h)), ("L lookups", lambda: part_lookup(ctx, h)),
                     ("S symbol files", lambda: part_symfiles(ctx, h)), ("M map files", lambda: part_maps(ctx, h, objdir)),
-                    ("D data directories", lambda: part_datadirs(ctx, h)), ("E end to end", lambda: part_e2e(ctx, objdir)),
+                    ("D data directories", lambda: part_datadirs(ctx, h)), ("E end to end", lambda: (part_e2e(ctx, objdir), part_rawdisplay(ctx, objdir))),
                     ("R real recordings with static initialisers", lambda: part_recordings(ctx, objdir)),
+                    ("X real recordings across fork and exec", lambda: part_forkexec(ctx, objdir)),
                     ("P PLT entries of ELF files", lambda: part_plt(ctx, h, objdir))):
         n0 = ctx.evaluations
         f()
@@ -1690,5 +2063,7 @@ def replay(ctx, obj):
             part_recordings(ctx, objdir)
         elif part == "P":
             part_plt(ctx, h, objdir)
+        elif part == "X":
+            part_forkexec(ctx, objdir)
         else:
             part_kernels(ctx, h)
